@@ -58,6 +58,10 @@ def cases(tier):
             continue
         c = dict(c, prng=s * 2654435761 % (2 ** 31) + i)
         out.append(c)
+        if tier == 'thorough':
+            # three more independent sets of generic points per configuration (other scales through other draws)
+            for rep in (1, 2, 3):
+                out.append(dict(c, prng=(c['prng'] * 7919 + rep * 104729) % (2 ** 31)))
     return out
 
 
